@@ -241,7 +241,8 @@ def r18_5(ctx, rep, roles, m):
                            "the inserted pair reaches the insert through %s (expected: the supplied iterator itself, every element)" % sorted(names - {"next", "into_iter"}),
                            where(m.fn), sample="pairs come from the supplied iterator without adaptor")
             # the key is removed from the previous-key set before the insert
-            rm = [x for x in row.calls() if sym.strip_all_generics(x[1]).endswith("HashSet::remove") and row.events.index(x) < row.events.index(e)]
+            rm = [x for x in row.calls() if sym.strip_all_generics(x[1]).split("::")[-1] == "remove" and ("HashSet" in x[1] or "BTreeSet" in x[1])
+                  and row.events.index(x) < row.events.index(e)]
             rep.obligation(bool(rm), "C18/R18.5/previous-keys", "a supplied key is not taken out of the previous-key set", where(m.fn),
                            sample="previous_keys.remove(key) before insert")
         for e in row.calls():
